@@ -164,6 +164,17 @@ func (c *Call) DownReadOffset() int {
 //go:noinline
 func (c *Call) noteURL(q string) { c.urlSeen, c.urlSet = q, true }
 
+// EditURL is what an HTTPClient does that routes by editing the request it
+// was handed (shard or tenant parameter, gateway prefix): legal for a
+// user-supplied Do, and visible to other calls only if the library shares the
+// URL between them.
+func (c *Call) EditURL(req *http.Request) {
+	if c.K.MutateURL && req.URL != nil {
+		c.noteURL(req.URL.RawQuery)
+		req.URL.RawQuery = "simcall=" + c.ID
+	}
+}
+
 // URLAtDo returns the query string the request URL carried when Do was
 // entered (a pristine request has none) and whether Do was reached.
 //
@@ -293,13 +304,7 @@ func (n *Net) Do(req *http.Request) (*http.Response, error) {
 		return nil, errNoCall
 	}
 	c.incDo()
-	if c.K.MutateURL && req.URL != nil {
-		// an HTTPClient that routes by editing the request it was handed (shard
-		// or tenant parameter, gateway prefix): legal for a user-supplied Do, and
-		// visible to other calls only if the library shares the URL between them
-		c.noteURL(req.URL.RawQuery)
-		req.URL.RawQuery = "simcall=" + c.ID
-	}
+	c.EditURL(req)
 	if err := validHeaders(req.Header); err != nil {
 		closeBody(req)
 		return nil, urlErr(req, err)
